@@ -115,9 +115,7 @@ structure St where
   tags : List String := []
   prevKeys : Option (List String) := none   -- implementation's key list after the previous step
 
-def dirName : Kind → List Char
-  | .data => "data".toList
-  | .image => "images".toList
+def dirName : Kind → List Char := storeDirName
 
 /-- the tree a successful save leaves when every key is a plain relative file path -/
 def plainTree (kind : Kind) (ws : List WriteFile) : List Spec.Node :=
